@@ -71,7 +71,11 @@ PROPS["C14"] = {"pkgs": [(".", "TestVerif_C14")],
                                  "loss schedules drop up to five transmissions of a request and up to two responses, never all"],
                 "assumptions": ["interval + 2 x 23.4 s < timeout for each (driver, server timer) pair: the meaning given to 'compatible configuration'"]}
 
-PROPS["C18"] = {"pkgs": [("./internal/allocation", "TestVerif_C18TD"), (".", "TestVerif_C18Client")],
+PROPS["C18"] = {"pkgs": [("./internal/allocation", "TestVerif_C18TD"), (".", "TestVerif_C18Client"), (".", "TestVerif_C18Stress")],
+                # thorough: everything under the race detector, and the concurrent campaigns of other properties as well
+                "go_flags": {"thorough": ["-race"]},
+                "extra_pkgs": {"thorough": [(".", "TestVerif_C16"), (".", "TestVerif_C12"), (".", "TestVerif_C14"),
+                                            ("./internal/client", "TestVerif_C13"), (".", "TestVerif_C01")]},
                 "pre": "c18:pre",
                 "trusted_base": ["translator/lockskel (Go, go/parser + go/types): recognition of Lock/Unlock/RLock/RUnlock calls (also deferred and "
                                  "through embedding), of reads and writes of the fields named in translator/lockskel/guards.txt, of calls between "
